@@ -9,6 +9,7 @@
 package mcp
 
 import (
+	"bufio"
 	"bytes"
 	"context"
 	"encoding/hex"
@@ -17,6 +18,7 @@ import (
 	"fmt"
 	"math/big"
 	"math/rand"
+	"net"
 	"os"
 	"path/filepath"
 	"reflect"
@@ -25,6 +27,7 @@ import (
 	"strings"
 	"sync"
 	"testing"
+	"time"
 	"unicode"
 
 	"github.com/google/jsonschema-go/jsonschema"
@@ -1549,10 +1552,12 @@ type ttWorld struct {
 	t   *testing.T
 	ctx context.Context
 	srv *Server
-	cs  *ClientSession
+	cs  *ClientSession // peer=sdk: the SDK client session
+	raw *ttRawPeer     // peer=raw: a hand-written foreign peer on a pipe
 	ss  *ServerSession
 	tap *ttTap
 	ctl *ttCtl
+	ver string // the protocol version the current pair runs at ("" before the first server)
 	// per case
 	caches map[int]*SchemaCache
 	ptrs   map[string]*ttPtr
@@ -1575,12 +1580,169 @@ func (w *ttWorld) closeServer() {
 		w.cs.Close()
 		w.ss.Wait()
 	}
-	w.srv, w.cs, w.ss = nil, nil, nil
-	w.tools, w.last = map[string]*ttToolInfo{}, ""
+	if w.raw != nil {
+		w.raw.close()
+		w.ss.Wait()
+	}
+	w.srv, w.cs, w.raw, w.ss = nil, nil, nil, nil
+	w.tools, w.last, w.ver = map[string]*ttToolInfo{}, "", ""
 }
 
-// server makes a new Server (and a client connected to it) on cache k of the case (0: no cache).
-func (w *ttWorld) server(k int) {
+// ---------------------------------------------------------------- a foreign peer: raw JSON-RPC on a pipe
+
+// ttRawPeer is a hand-written (non-SDK) MCP client: newline delimited JSON-RPC over a net.Pipe whose other
+// end the server is connected to. Legacy versions: the classic initialize handshake at a version of its
+// choosing; from 2026-07-28 on: no handshake, every request carries the per-request _meta (SEP-2575).
+type ttRawPeer struct {
+	conn   net.Conn
+	ver    string
+	modern bool
+	mu     sync.Mutex
+	next   int
+	wait   map[int]chan ttRawReply
+	done   chan struct{}
+}
+
+type ttRawReply struct {
+	result json.RawMessage
+	rpcErr json.RawMessage
+}
+
+func ttNewRawPeer(conn net.Conn, ver string) *ttRawPeer {
+	p := &ttRawPeer{conn: conn, ver: ver, modern: ver >= protocolVersion20260728, wait: map[int]chan ttRawReply{}, done: make(chan struct{})}
+	go p.readLoop()
+	return p
+}
+
+// readLoop hands responses to their callers, drops notifications and refuses the server's own requests.
+func (p *ttRawPeer) readLoop() {
+	defer close(p.done)
+	r := bufio.NewReaderSize(p.conn, 1<<16)
+	for {
+		line, err := r.ReadBytes('\n')
+		if err != nil {
+			p.mu.Lock()
+			for id, ch := range p.wait {
+				close(ch)
+				delete(p.wait, id)
+			}
+			p.wait = nil
+			p.mu.Unlock()
+			return
+		}
+		var msg struct {
+			ID     *json.RawMessage `json:"id"`
+			Method string           `json:"method"`
+			Result json.RawMessage  `json:"result"`
+			Error  json.RawMessage  `json:"error"`
+		}
+		if json.Unmarshal(line, &msg) != nil {
+			continue
+		}
+		if msg.Method != "" {
+			if msg.ID != nil { // a request of the server: this peer implements nothing
+				p.write(fmt.Sprintf(`{"jsonrpc":"2.0","id":%s,"error":{"code":-32601,"message":"not implemented by this peer"}}`, *msg.ID))
+			}
+			continue
+		}
+		if msg.ID == nil {
+			continue
+		}
+		id, err := strconv.Atoi(string(*msg.ID))
+		if err != nil {
+			continue
+		}
+		p.mu.Lock()
+		ch := p.wait[id]
+		delete(p.wait, id)
+		p.mu.Unlock()
+		if ch != nil {
+			ch <- ttRawReply{msg.Result, msg.Error}
+		}
+	}
+}
+
+func (p *ttRawPeer) write(line string) error {
+	p.conn.SetWriteDeadline(time.Now().Add(30 * time.Second))
+	_, err := p.conn.Write([]byte(line + "\n"))
+	return err
+}
+
+// meta is the per-request _meta of the sessionless protocol.
+func (p *ttRawPeer) meta() string {
+	return fmt.Sprintf(`{%q:%q,%q:{"name":"tt-foreign-peer","version":"1"},%q:{}}`,
+		MetaKeyProtocolVersion, p.ver, MetaKeyClientInfo, MetaKeyClientCapabilities)
+}
+
+// rpc sends one request whose params are the given members (the text between the braces) and waits for
+// its response. A modern peer adds its _meta to every request.
+func (p *ttRawPeer) rpc(method, members string) (ttRawReply, error) {
+	if p.modern {
+		if members != "" {
+			members += ","
+		}
+		members += `"_meta":` + p.meta()
+	}
+	p.mu.Lock()
+	if p.wait == nil {
+		p.mu.Unlock()
+		return ttRawReply{}, errors.New("peer connection closed")
+	}
+	p.next++
+	id := p.next
+	ch := make(chan ttRawReply, 1)
+	p.wait[id] = ch
+	p.mu.Unlock()
+	mj, _ := json.Marshal(method)
+	if err := p.write(fmt.Sprintf(`{"jsonrpc":"2.0","id":%d,"method":%s,"params":{%s}}`, id, mj, members)); err != nil {
+		return ttRawReply{}, err
+	}
+	select {
+	case rep, ok := <-ch:
+		if !ok {
+			return ttRawReply{}, errors.New("peer connection closed")
+		}
+		return rep, nil
+	case <-time.After(60 * time.Second):
+		return ttRawReply{}, errors.New("no response within 60 s")
+	}
+}
+
+// handshake: initialize + notifications/initialized at a legacy version; nothing for a modern one. Returns
+// the version the server answered with.
+func (p *ttRawPeer) handshake() (string, error) {
+	if p.modern {
+		return p.ver, nil
+	}
+	rep, err := p.rpc("initialize", fmt.Sprintf(`"protocolVersion":%q,"capabilities":{},"clientInfo":{"name":"tt-foreign-peer","version":"1"}`, p.ver))
+	if err != nil {
+		return "", err
+	}
+	if rep.rpcErr != nil {
+		return "", fmt.Errorf("initialize refused: %s", rep.rpcErr)
+	}
+	var init struct {
+		ProtocolVersion string `json:"protocolVersion"`
+	}
+	if err := json.Unmarshal(rep.result, &init); err != nil {
+		return "", err
+	}
+	if err := p.write(`{"jsonrpc":"2.0","method":"notifications/initialized"}`); err != nil {
+		return "", err
+	}
+	return init.ProtocolVersion, nil
+}
+
+func (p *ttRawPeer) close() {
+	p.conn.Close()
+	<-p.done
+}
+
+// server makes a new Server on cache k of the case (0: no cache) and a peer connected to it: the SDK
+// client (peer=sdk) asked to run at protocol version ver ("default": ClientSessionOptions left alone), or
+// a foreign peer speaking raw JSON-RPC over a pipe at that version (peer=raw). Returns the version the
+// pair ended up with.
+func (w *ttWorld) server(k int, ver, peer string) (string, error) {
 	w.closeServer()
 	var opts *ServerOptions
 	if k > 0 {
@@ -1590,6 +1752,24 @@ func (w *ttWorld) server(k int) {
 		opts = &ServerOptions{SchemaCache: w.caches[k]}
 	}
 	w.srv = NewServer(&Implementation{Name: "tt-server", Version: "1"}, opts)
+	if peer == "raw" {
+		if ver == "default" {
+			ver = latestProtocolVersion
+		}
+		c1, c2 := net.Pipe()
+		ss, err := w.srv.Connect(w.ctx, &InMemoryTransport{c2}, nil)
+		if err != nil {
+			w.t.Fatal(err)
+		}
+		w.ss = ss
+		w.raw = ttNewRawPeer(c1, ver)
+		nv, err := w.raw.handshake()
+		if err != nil {
+			return "", err
+		}
+		w.ver = nv
+		return nv, nil
+	}
 	ct, st := NewInMemoryTransports()
 	ss, err := w.srv.Connect(w.ctx, st, nil)
 	if err != nil {
@@ -1597,11 +1777,22 @@ func (w *ttWorld) server(k int) {
 	}
 	w.ss = ss
 	c := NewClient(&Implementation{Name: "tt-client", Version: "1"}, nil)
-	cs, err := c.Connect(w.ctx, &ttTapTransport{ct, w.tap}, nil)
+	var co *ClientSessionOptions
+	if ver != "default" {
+		co = &ClientSessionOptions{ProtocolVersion: ver}
+	}
+	cs, err := c.Connect(w.ctx, &ttTapTransport{ct, w.tap}, co)
 	if err != nil {
-		w.t.Fatal(err)
+		ss.Close()
+		ss.Wait()
+		w.ss = nil
+		return "", err
 	}
 	w.cs = cs
+	if ir := cs.InitializeResult(); ir != nil {
+		w.ver = ir.ProtocolVersion
+	}
+	return w.ver, nil
 }
 
 func ttKV(toks []string, k string) string {
@@ -1652,18 +1843,30 @@ func ttDerived(t reflect.Type) string {
 	return "x" + hx(b)
 }
 
-// advertised fetches tools/list from the server through the client connection (no client-side cache)
+// advertised fetches tools/list from the server through the peer's connection (no client-side cache)
 // and returns the raw inputSchema / outputSchema of the named tool.
 func (w *ttWorld) advertised(name string) (in, out json.RawMessage, err error) {
-	w.tap.mu.Lock()
-	w.tap.last, w.tap.err = nil, nil
-	w.tap.mu.Unlock()
-	if _, err = handleSend[*ListToolsResult](w.ctx, methodListTools, newClientRequest(w.cs, Params(&ListToolsParams{}))); err != nil {
-		return nil, nil, err
+	var raw json.RawMessage
+	if w.raw != nil {
+		rep, err := w.raw.rpc(methodListTools, "")
+		if err != nil {
+			return nil, nil, err
+		}
+		if rep.rpcErr != nil {
+			return nil, nil, fmt.Errorf("tools/list refused: %s", rep.rpcErr)
+		}
+		raw = rep.result
+	} else {
+		w.tap.mu.Lock()
+		w.tap.last, w.tap.err = nil, nil
+		w.tap.mu.Unlock()
+		if _, err = handleSend[*ListToolsResult](w.ctx, methodListTools, newClientRequest(w.cs, Params(&ListToolsParams{}))); err != nil {
+			return nil, nil, err
+		}
+		w.tap.mu.Lock()
+		raw = w.tap.last
+		w.tap.mu.Unlock()
 	}
-	w.tap.mu.Lock()
-	raw := w.tap.last
-	w.tap.mu.Unlock()
 	var lr struct {
 		Tools []struct {
 			Name         string          `json:"name"`
@@ -1687,7 +1890,9 @@ func (w *ttWorld) advertised(name string) (in, out json.RawMessage, err error) {
 // they were actually handed over), the observation and tags.
 func (w *ttWorld) tool(toks []string) (op string, obs string, tags []string) {
 	if w.srv == nil {
-		w.server(0)
+		if _, err := w.server(0, "default", "sdk"); err != nil {
+			return strings.Join(toks, " "), "connect-error " + hxs(err.Error()), nil
+		}
 	}
 	reg := ttRegByName(ttKV(toks, "reg"))
 	if reg == nil {
@@ -1920,6 +2125,17 @@ func (w *ttWorld) call(toks []string) (op string, obs string, tags []string) {
 		return op, "bad-args-token", nil
 	}
 	tags = append(tags, "args:"+argShape, "content:"+spec.content, fmt.Sprintf("herr:%d", spec.herr))
+	peerKind := "sdk"
+	if w.raw != nil {
+		peerKind = "raw"
+	}
+	// which session, and — the dimension a default-version client never exercises — which JSON kind of
+	// arguments / of structured content on a session older than 2026-07-28
+	era := "modern"
+	if w.ver < protocolVersion20260728 {
+		era = "legacy"
+	}
+	tags = append(tags, "ver:"+w.ver, "peer:"+peerKind, "akind:"+ttJSONKind(a), era+"-"+peerKind+"-args:"+ttJSONKind(a))
 	if gt := ttKV(toks, "gen"); gt != "" {
 		tags = append(tags, "gen:"+gt)
 	}
@@ -1951,11 +2167,11 @@ func (w *ttWorld) call(toks []string) (op string, obs string, tags []string) {
 		if a != "absent" {
 			rawArgs, _ = ttUnhex(a)
 		}
-		ti.probe(w.ctx, &CallToolRequest{Params: &CallToolParamsRaw{Name: name, Arguments: rawArgs}})
+		ti.probe(w.ctx, &CallToolRequest{Session: w.ss, Params: &CallToolParamsRaw{Name: name, Arguments: rawArgs}})
 		return false
 	}()
 	if panicked {
-		return op, fmt.Sprintf("inv=%d seen=- res=panic sc=- content=- lib=%s olib=-", w.ctl.obs.inv, lib), append(tags, "res:panic")
+		return op, fmt.Sprintf("inv=%d seen=- res=panic sc=- content=- lib=%s olib=- rt=-", w.ctl.obs.inv, lib), append(tags, "res:panic")
 	}
 
 	// 2. the real round trip
@@ -1964,13 +2180,34 @@ func (w *ttWorld) call(toks []string) (op string, obs string, tags []string) {
 	w.tap.mu.Lock()
 	w.tap.last, w.tap.err = nil, nil
 	w.tap.mu.Unlock()
-	var res *CallToolResult
-	var err error
-	if a == "absent" {
-		res, err = handleSend[*CallToolResult](w.ctx, methodCallTool, newClientRequest(w.cs, Params(&ttRawParams{params})))
+	// raw: the result member of the response as it arrived at the peer; rpcErr: a JSON-RPC error arrived
+	var raw json.RawMessage
+	var rpcErr, nilRes bool
+	if w.raw != nil {
+		members := fmt.Sprintf(`"name":%s`, nameJSON)
+		if a != "absent" {
+			rawArgs, _ := ttUnhex(a)
+			members += `,"arguments":` + string(rawArgs)
+		}
+		rep, err := w.raw.rpc(methodCallTool, members)
+		if err != nil {
+			return op, "peer-error " + hxs(err.Error()), tags
+		}
+		raw, rpcErr = rep.result, rep.rpcErr != nil
+		nilRes = !rpcErr && (len(raw) == 0 || string(raw) == "null")
 	} else {
-		rawArgs, _ := ttUnhex(a)
-		res, err = w.cs.CallTool(w.ctx, &CallToolParams{Name: name, Arguments: json.RawMessage(rawArgs)})
+		var res *CallToolResult
+		var err error
+		if a == "absent" {
+			res, err = handleSend[*CallToolResult](w.ctx, methodCallTool, newClientRequest(w.cs, Params(&ttRawParams{params})))
+		} else {
+			rawArgs, _ := ttUnhex(a)
+			res, err = w.cs.CallTool(w.ctx, &CallToolParams{Name: name, Arguments: json.RawMessage(rawArgs)})
+		}
+		rpcErr, nilRes = err != nil, err == nil && res == nil
+		w.tap.mu.Lock()
+		raw = w.tap.last
+		w.tap.mu.Unlock()
 	}
 	if ob.bad != "" {
 		return op, "harness-error " + hxs(ob.bad), tags
@@ -1996,17 +2233,14 @@ func (w *ttWorld) call(toks []string) (op string, obs string, tags []string) {
 		}
 	}
 	tags = append(tags, "olib:"+olib)
-	kind, sc, content := "", "-", "-"
+	kind, sc, content, rt := "", "-", "-", "-"
 	switch {
-	case err != nil:
+	case rpcErr:
 		kind = "rpcerr"
 		tags = append(tags, "res:rpcerr")
-	case res == nil:
+	case nilRes:
 		kind = "nil-result"
 	default:
-		w.tap.mu.Lock()
-		raw := w.tap.last
-		w.tap.mu.Unlock()
 		var wire struct {
 			Content []struct {
 				Type string `json:"type"`
@@ -2020,6 +2254,14 @@ func (w *ttWorld) call(toks []string) (op string, obs string, tags []string) {
 		}
 		if e := json.Unmarshal(raw, &members); e != nil {
 			return op, "bad-wire-result", tags
+		}
+		if rtRaw, has := members["resultType"]; has {
+			var rs string
+			if json.Unmarshal(rtRaw, &rs) == nil && (rs == "complete" || rs == "input_required") {
+				rt = rs
+			} else {
+				rt = "x" + hx(rtRaw)
+			}
 		}
 		structured, hasSC := members["structuredContent"]
 		var scCanon string
@@ -2070,11 +2312,39 @@ func (w *ttWorld) call(toks []string) (op string, obs string, tags []string) {
 				content = strings.Join(bl, ";")
 			}
 			if sc != "-" {
-				tags = append(tags, "structured")
+				tags = append(tags, "structured", "sc:"+ttJSONKind("x"+hx(structured)), era+"-"+peerKind+"-sc:"+ttJSONKind("x"+hx(structured)))
 			}
 		}
 	}
-	return op, fmt.Sprintf("inv=%d seen=%s res=%s sc=%s content=%s lib=%s olib=%s", ob.inv, seen, kind, sc, content, lib, olib), tags
+	return op, fmt.Sprintf("inv=%d seen=%s res=%s sc=%s content=%s lib=%s olib=%s rt=%s", ob.inv, seen, kind, sc, content, lib, olib, rt), tags
+}
+
+// ttJSONKind names the JSON kind of an args=/out= token: absent, null, object, array, string, number, boolean.
+func ttJSONKind(tok string) string {
+	if tok == "absent" {
+		return "absent"
+	}
+	b, ok := ttUnhex(tok)
+	if !ok {
+		return "bad"
+	}
+	t := strings.TrimLeft(string(b), " \t\r\n")
+	if t == "" {
+		return "bad"
+	}
+	switch t[0] {
+	case '{':
+		return "object"
+	case '[':
+		return "array"
+	case '"':
+		return "string"
+	case 't', 'f':
+		return "boolean"
+	case 'n':
+		return "null"
+	}
+	return "number"
 }
 
 // ttRun interprets one op line.
@@ -2092,12 +2362,26 @@ func (w *ttWorld) run(line string) (op, obs string, tags []string) {
 		if err != nil || k < 0 {
 			return line, "bad-op", nil
 		}
-		w.server(k)
-		tg := []string{"server"}
+		ver, peer := ttKV(toks, "ver"), ttKV(toks, "peer")
+		if ver == "" {
+			ver = "default"
+		}
+		if peer == "" {
+			peer = "sdk"
+		}
+		if peer != "sdk" && peer != "raw" {
+			return line, "bad-op", nil
+		}
+		op := fmt.Sprintf("server cache=%d ver=%s peer=%s", k, ver, peer)
+		tg := []string{"server", "server-ver:" + ver, "server-peer:" + peer}
 		if k > 0 {
 			tg = append(tg, "server-cache")
 		}
-		return line, "ok", tg
+		nv, cerr := w.server(k, ver, peer)
+		if cerr != nil {
+			return op, "connect-error " + hxs(cerr.Error()), tg
+		}
+		return op, "ok nv=" + nv, tg
 	case "tool":
 		return w.tool(toks)
 	case "call":
@@ -2158,10 +2442,8 @@ func ttDerive(t reflect.Type) any {
 func (c *ttCaseGen) addTool(name string, reg *ttReg, pExplicitIn, pExplicitOut float64) *ttGenTool {
 	g := c.g
 	inTy, outTy := ttDescribe(reg.inTy), ttDescribe(reg.out)
-	isrc, osrc := "d", "d"
 	var isch, osch any
 	if g.coin(pExplicitIn) {
-		isrc = "e"
 		switch inTy.K {
 		case "struct":
 			isch = g.schemaFor(inTy, 0)
@@ -2177,11 +2459,7 @@ func (c *ttCaseGen) addTool(name string, reg *ttReg, pExplicitIn, pExplicitOut f
 			isch = g.freeSchema(0, true)
 		}
 	}
-	if outTy.K == "any" {
-		osrc = "none"
-	}
 	if g.coin(pExplicitOut) {
-		osrc = "e"
 		switch outTy.K {
 		case "any":
 			osch = g.freeSchema(0, g.coin(0.6))
@@ -2197,6 +2475,24 @@ func (c *ttCaseGen) addTool(name string, reg *ttReg, pExplicitIn, pExplicitOut f
 		} else {
 			osch = map[string]any{} // boolean root schemas are not sent as explicit output schemas
 		}
+	}
+	return c.emitTool(name, reg, isch, osch)
+}
+
+// emitTool emits the `tool` op for the declared schemas isch / osch (nil: that side is derived from the
+// Go type — or, for an `any` output, there is no output schema).
+func (c *ttCaseGen) emitTool(name string, reg *ttReg, isch, osch any) *ttGenTool {
+	g := c.g
+	outTy := ttDescribe(reg.out)
+	isrc, osrc := "d", "d"
+	if isch != nil {
+		isrc = "e"
+	}
+	if outTy.K == "any" {
+		osrc = "none"
+	}
+	if osch != nil {
+		osrc = "e"
 	}
 	form := g.pick("raw", "schema")
 	// one side at a time: a fresh pointer, or one handed over before for the same Go type and side
@@ -2245,25 +2541,33 @@ func (c *ttCaseGen) addTool(name string, reg *ttReg, pExplicitIn, pExplicitOut f
 	return t
 }
 
+// the values of `arguments` that are no objects: every other JSON kind (and the empty array)
+var ttNonObjArgs = []string{"[1]", `"str"`, "5", "true", "[]", "false", `"{\"name\":\"al\"}"`, "-0.5"}
+
 // addCall emits one `call` op addressed to tool t.
-func (c *ttCaseGen) addCall(t *ttGenTool) {
+func (c *ttCaseGen) addCall(t *ttGenTool) { c.addCallWith(t, "", "", "") }
+
+// addCallWith emits one `call` op addressed to tool t. args / out other than "": the given tokens instead
+// of generated ones (atag names how the arguments were chosen).
+func (c *ttCaseGen) addCallWith(t *ttGenTool, args, atag, out string) {
 	g := c.g
-	var args, atag string
-	switch x := g.r.Intn(100); {
-	case x < 3:
-		args, atag = "absent", "gen:absent"
-	case x < 7:
-		args, atag = "x"+hxs("null"), "gen:null"
-	case x < 9:
-		args, atag = "x"+hxs(g.pick("[1]", `"str"`, "5", "true", "[]")), "gen:nonobj"
-	default:
-		g.variants = true
-		tx, tg := g.instance(t.ischV)
-		g.variants = false
-		args, atag = "x"+hxs(tx), tg
+	if args == "" {
+		switch x := g.r.Intn(100); {
+		case x < 3:
+			args, atag = "absent", "gen:absent"
+		case x < 7:
+			args, atag = "x"+hxs("null"), "gen:null"
+		case x < 10:
+			args, atag = "x"+hxs(g.pick(ttNonObjArgs...)), "gen:nonobj"
+		default:
+			g.variants = true
+			tx, tg := g.instance(t.ischV)
+			g.variants = false
+			args, atag = "x"+hxs(tx), tg
+		}
 	}
-	out := ""
 	switch {
+	case out != "":
 	case t.outTy.K == "ptr" && g.coin(0.3):
 		out = "nilptr"
 	case t.outTy.K == "any" && g.coin(0.2):
@@ -2297,6 +2601,88 @@ func (c *ttCaseGen) addCall(t *ttGenTool) {
 	c.lines = append(c.lines, fmt.Sprintf("call tool=%s args=%s out=%s anyx=%d content=%s herr=%d gen=%s", t.name, args, out, anyx, content, herr, strings.TrimPrefix(atag, "gen:")))
 }
 
+// session draws the protocol version and the kind of peer of a server of the case: the SDK client left
+// alone (its default version) or told to run at one of the SDK's supported versions, or a foreign peer
+// speaking raw JSON-RPC at one of them.
+func (g *ttGen) session() string {
+	vs := append([]string{"default", "default"}, supportedProtocolVersions...)
+	peer := "sdk"
+	if g.coin(0.4) {
+		peer = "raw"
+	}
+	return fmt.Sprintf("ver=%s peer=%s", vs[g.r.Intn(len(vs))], peer)
+}
+
+// the registrations of the version matrix: one per kind of output (object, nil pointer to an object,
+// array, array of objects, string, number — signed, unsigned, float —, boolean, nil pointer to a number,
+// map, `any`)
+var ttMatrixRegs = []string{"A/A", "A/PA", "A/SI", "A/SD", "A/S", "A/I", "A/UI", "A/F", "A/BO", "A/PI", "A/M", "A/Y"}
+
+// the explicit output schemas of the matrix for Out = any: one per JSON root type
+var ttMatrixAnySchemas = []string{`{"type":"object"}`, `{"type":"array"}`, `{"type":"string"}`, `{"type":"number"}`,
+	`{"type":"integer"}`, `{"type":"boolean"}`, `{"type":"null"}`, `{"type":["null","array"],"items":{"type":"integer"}}`, `{}`}
+
+// ttMatrixCase is the deterministic part of the stream for one (version, peer): on one server, a typed
+// tool per kind of output — each with the schema derived from its Out type and with a declared one —, and
+// Out = any under a declared schema of every root type; each tool is called with generated arguments
+// (valid and one-mutation-invalid), with `arguments` of every JSON kind in turn (absent, null, array,
+// string, number, boolean: all invalid under an input schema of type object, none may reach the handler,
+// each must be answered by a tool-level error result), and — where the Out type has one — with a nil
+// pointer / nil `any` / JSON null output.
+func ttMatrixCase(r *rand.Rand, ver, peer string) []string {
+	g := &ttGen{r: r, feat: map[string]bool{}}
+	c := &ttCaseGen{g: g, lines: []string{"reset", fmt.Sprintf("server cache=%d ver=%s peer=%s", r.Intn(2), ver, peer)}}
+	kinds := append([]string{"absent", "x" + hxs("null")}, func() (o []string) {
+		for _, a := range ttNonObjArgs {
+			o = append(o, "x"+hxs(a))
+		}
+		return
+	}()...)
+	n, k := 0, r.Intn(len(kinds))
+	calls := func(t *ttGenTool) {
+		c.addCall(t)
+		c.addCall(t)
+		tag := "nonobj"
+		switch kinds[k%len(kinds)] {
+		case "absent":
+			tag = "absent"
+		case "x" + hxs("null"):
+			tag = "null"
+		}
+		c.addCallWith(t, kinds[k%len(kinds)], "gen:"+tag, "")
+		k++
+		switch t.outTy.K {
+		case "ptr":
+			c.addCallWith(t, "", "", "nilptr")
+		case "any":
+			c.addCallWith(t, "", "", "nilany")
+		case "slice", "map":
+			c.addCallWith(t, "", "", "x"+hxs("null")) // a nil slice / map: JSON null
+		}
+	}
+	for _, rn := range ttMatrixRegs {
+		reg := ttRegByName(rn)
+		if reg == nil {
+			continue
+		}
+		if reg.out.Kind() == reflect.Interface {
+			for _, sj := range ttMatrixAnySchemas {
+				n++
+				v, _ := ttParse([]byte(sj))
+				calls(c.emitTool(fmt.Sprintf("t%d", n), reg, nil, v))
+			}
+			n++
+			calls(c.emitTool(fmt.Sprintf("t%d", n), reg, nil, nil))
+			continue
+		}
+		n++
+		calls(c.emitTool(fmt.Sprintf("t%d", n), reg, nil, nil)) // both sides derived
+		n++
+		calls(c.addTool(fmt.Sprintf("t%d", n), reg, 0.5, 1)) // a declared output schema
+	}
+	return c.lines
+}
+
 // ttRelated lists the registrations sharing the In or the Out Go type (pointers stripped) with reg.
 func ttRelated(reg *ttReg) []*ttReg {
 	var o []*ttReg
@@ -2323,7 +2709,7 @@ func ttGenCase(r *rand.Rand, nCalls int) []string {
 	g.bigbound = g.coin(0.04)
 	pivot := &ttRegs[r.Intn(len(ttRegs))]
 	if g.coin(0.45) {
-		c.lines = append(c.lines, fmt.Sprintf("server cache=%d", g.r.Intn(2)))
+		c.lines = append(c.lines, fmt.Sprintf("server cache=%d %s", g.r.Intn(2), g.session()))
 		t := c.addTool("t1", pivot, 0.7, 0.65)
 		for i := 0; i < nCalls; i++ {
 			c.addCall(t)
@@ -2336,7 +2722,7 @@ func ttGenCase(r *rand.Rand, nCalls int) []string {
 	left := nCalls + 2
 	n := 0
 	for sv := 0; sv < nServers; sv++ {
-		c.lines = append(c.lines, fmt.Sprintf("server cache=%d", []int{0, 1, 1, 1, 2}[g.r.Intn(5)]))
+		c.lines = append(c.lines, fmt.Sprintf("server cache=%d %s", []int{0, 1, 1, 1, 2}[g.r.Intn(5)], g.session()))
 		var cur []*ttGenTool
 		k := nTools / nServers
 		if sv == nServers-1 {
@@ -2435,6 +2821,12 @@ func TestVerifTypedTool(t *testing.T) {
 		f64 = append(f64, "f64 "+n.String())
 	}
 	runCase(f64)
+	// the version matrix: every supported protocol version (and the SDK client's default) x both kinds of peer
+	for _, ver := range append([]string{"default"}, supportedProtocolVersions...) {
+		for _, peer := range []string{"sdk", "raw"} {
+			runCase(ttMatrixCase(r, ver, peer), "matrix")
+		}
+	}
 	n := verifN(1100, 20000)
 	for i := 0; i < n; i++ {
 		runCase(ttGenCase(r, 8))
